@@ -6,35 +6,95 @@ from .bmc import decide, cosim, replay_on_sim, Inconclusive
 
 class Q:
     """One window query.  build(h, frames) -> (assumptions, bad)."""
-    def __init__(self, name, k, build, init="free", twin=None, max_prefix=6):
+    def __init__(self, name, k, build, init="free", twin=None, max_prefix=6, rst=False):
         self.name = name
         self.k = k
         self.build = build
         self.init = init
         self.twin = twin
         self.max_prefix = max_prefix
+        self.rst = rst            # the reset input is free in this window (the build function constrains it)
 
 
 def cfg_key(cfg):
     return json.dumps(cfg, sort_keys=True, separators=(",", ":"), default=repr)
 
 
+def _crc(cfg):
+    import zlib
+    return zlib.crc32(cfg_key(cfg).encode())
+
+
+def history_of(mod, cfg):
+    """Configurations of the same family that are built and elaborated in this process BEFORE the one under check
+    (hardware must not depend on process-global state left behind by other instances: module-level caches, class
+    attributes, interned helper objects).  Deterministic in the configuration."""
+    allc = [c for c in (getattr(mod, "_ALL_CONFIGS", None) or []) if isinstance(c, dict)]
+    if not allc or not getattr(mod, "WARMUP", True):
+        return []
+    x = _crc(cfg)
+    picks = []
+    for j in range(3):
+        c = allc[(x >> (8 * j)) % len(allc)]
+        if c != cfg and c not in picks:
+            picks.append(c)
+    return picks
+
+
+def elaborate_history(mod, hist):
+    from amaranth.hdl import Fragment
+    for c in hist:
+        try:
+            Fragment.get(mod.maker(c)().top, None)
+        except Exception:
+            pass            # a sibling that cannot be built here (refused layout, other kind of entry) is no history
+
+
+def second_elaboration(mod, cfg):
+    """every third configuration is checked on the SECOND elaboration of the same object (a design is routinely
+    converted and then simulated, or simulated twice)"""
+    return getattr(mod, "SECOND", True) and "second" not in cfg and _crc(cfg) % 3 == 0
+
+
+def maker_of(mod, cfg):
+    make = mod.maker(cfg)
+    if not second_elaboration(mod, cfg):
+        return make
+
+    def make2():
+        from amaranth.hdl import Fragment
+        h = make()
+        Fragment.get(h.top, None)
+        return h
+    return make2
+
+
 def run_queries(mod, cfg, out, stats, cosim_cycles=0, extra_observe=lambda h: []):
     """Translate the configuration once, discharge all its queries, optionally co-simulate."""
-    make = mod.maker(cfg)
+    make = maker_of(mod, cfg)
+    hist = history_of(mod, cfg)
+    elaborate_history(mod, hist)
     if getattr(mod, "WARMUP", True):
-        # another instance of the same configuration is built and elaborated first: hardware must not depend
-        # on process-global state left behind by earlier elaborations (module-level caches and the like)
+        # another instance of the same configuration is built and elaborated first as well
         make().translate()
     h = make()
     ts = h.translate()
     st = ts.stats()
     for k, v in st.items():
         stats.encoded[k] = max(stats.encoded.get(k, 0), v)
+    undecided = None
+    found = False
     for q in mod.queries(h, cfg):
-        v = decide(make, h, q.name, q.k, q.build, stats, init=q.init, max_prefix=q.max_prefix,
-                   twin=q.twin, sample={"cfg": cfg})
+        try:
+            v = decide(make, h, q.name, q.k, q.build, stats, init=q.init, max_prefix=q.max_prefix,
+                       twin=q.twin, sample={"cfg": cfg}, rst_free=q.rst)
+        except Inconclusive as e:
+            # the other queries of this configuration are still decided: a confirmed violation of one of them
+            # stands; without one, the configuration is reported as inconclusive
+            undecided = undecided or e
+            continue
         if v is not None:
+            found = True
             from .bmc import mark_violation
             mark_violation(f"{q.name}@{cfg_key(cfg)}")
             out.violations.append({
@@ -42,16 +102,19 @@ def run_queries(mod, cfg, out, stats, cosim_cycles=0, extra_observe=lambda h: []
                 "what": f"{mod.PROPERTY} {q.name} violated for configuration {cfg_key(cfg)} "
                         f"(reset-rooted, {len(v.stimulus)} cycles, reproduced on the simulator)",
                 "query": q.name, "cfg": cfg, "stimulus": v.stimulus, "prefix": v.prefix, "k": v.k,
-                "detail": v.detail,
+                "detail": v.detail, "history": hist, "second_elaboration": second_elaboration(mod, cfg),
             })
-    if cosim_cycles:
+    if undecided is not None and not found:
+        raise undecided
+    if cosim_cycles and undecided is None:
         cosim(make, cycles=cosim_cycles, seed=hash(cfg_key(cfg)) & 0xffff, stats=stats, extra=extra_observe)
 
 
 def replay(mod, v):
     """Re-run a stored counterexample on the simulator against the current tree (no solver)."""
     cfg = v["cfg"]
-    make = mod.maker(cfg)
+    elaborate_history(mod, v.get("history") or [])
+    make = maker_of(mod, cfg)
     h = make()
     qs = {q.name: q for q in mod.queries(h, cfg)}
     q = qs[v["query"]]
